@@ -417,6 +417,63 @@ def dataLabelCheck (start stop : Nat) (n : String) (wordForm : Bool) : M Val := 
     | .CODE => err start stop (if wordForm then s!"Cannot use Code label {n}  " else s!"Cannot use Code label {n}")
     | .DATA => pure (.str n)
 
+/-! ### the context-dependent actions, one function each (Props.C08 / C14 reason about these) -/
+
+/-- `label`: a name may be defined once (as code or data); a code label maps to the index of the next
+    instruction to be emitted -/
+def labelAction (start : Nat) (tokText : String) : M Val := do
+  let name := String.ofList (tokText.toList.take (tokText.length - 1))
+  let s ← get
+  match s.label? name with
+  | some l => err l.srcPos (l.srcPos + tokText.utf8ByteSize) s!"Label {tokText} Already defined"
+  | none =>
+    set { s with labels := insertAssoc s.labels name { type := .CODE, srcPos := start, map := s.code.size } }
+    pure (.str name)
+
+/-- `proc_def`: a procedure may be declared once; it maps to the index of its first instruction -/
+def procDefAction (start stop : Nat) (n : String) : M Val := do
+  let s ← get
+  match s.fns.lookup n with
+  | some _ => err start stop s!"Procedure {n} already declared"
+  | none => set { s with fns := insertAssoc s.fns n s.code.size }; pure .unit
+
+/-- `procedure`: the closing brace emits the implied `ret`, mapped to the brace -/
+def procedureAction (stop : Nat) : M Val := do pushCode "ret" (stop - 1); pure .unit
+
+/-- `call`: only a declared procedure -/
+def callAction (start stop : Nat) (n : String) : M Val := do
+  let s ← get
+  match s.fns.lookup n with
+  | none => err start stop s!"'call' can be only used with procedures, {n} is not a procedure"
+  | some _ => pushCode s!"call {n}" start; pure .unit
+
+/-- `int`: only 3, 10h, 21h -/
+def intAction (start stop : Nat) (n : Int) : M Val :=
+  if n == 3 || n == 0x10 || n == 0x21 then do pushCode s!"int {n}" start; pure .unit
+  else err start stop "'int' only supports 0x3,0x10 and 0x21"
+
+/-- `jmps_loops`: a data label is refused, an unknown name is recorded for the driver's check -/
+def jmpAction (start stop : Nat) (q n : String) : M Val := do
+  let s ← get
+  match s.label? n with
+  | some l =>
+    match l.type with
+    | .DATA => err start stop s!"Jumps are only supported with Code labels : {n} is data label"
+    | .CODE => pushCode s!"{q} {n}" start; pure .unit
+  | none =>
+    set { s with undefined := if s.undefined.contains (start, n) then s.undefined else s.undefined ++ [(start, n)] }
+    pushCode s!"{q} {n}" start; pure .unit
+
+/-- `offset`: only a data label -/
+def offsetAction (start stop : Nat) (n : String) : M Val := do
+  let s ← get
+  match s.label? n with
+  | some l =>
+    match l.type with
+    | .CODE => err start stop s!"'offset' can be used only with data labels, {n} is not a data label"
+    | .DATA => pure (.num (l.map % 65536))
+  | none => err start stop s!"Label {n} is not declared."
+
 /-- the evaluator: post-order (= LR reduction order).  `reparse` is the recursive entry used by
     `macro_use` (a fresh parser on the expanded text, same context). -/
 def special (reparse : String → M Unit) (name : String) (alt : Nat) (kids : List Tree) (vals : List Val) : M Val := do
@@ -484,50 +541,17 @@ def special (reparse : String → M Unit) (name : String) (alt : Nat) (kids : Li
         pure .unit
       | .error (.panic w) => fail (.panic w)
       | .error _ => err start stop s!"Error in Macro Expansion :\nExpanded Macro : {expanded}"
-  | "procedure", 0 =>
-    -- mapped to the closing brace itself (`end-1`)
-    pushCode "ret" (posOf (v 5) - 1); pure .unit
-  | "proc_def", 0 =>
-    let n := strOf (v 2)
-    let s ← get
-    match s.fns.lookup n with
-    | some _ => err (posOf (v 0)) (posOf (v 3)) s!"Procedure {n} already declared"
-    | none => set { s with fns := insertAssoc s.fns n s.code.size }; pure .unit
+  | "procedure", 0 => procedureAction (posOf (v 5))
+  | "proc_def", 0 => procDefAction (posOf (v 0)) (posOf (v 3)) (strOf (v 2))
   | "print_stmt", 3 =>
     let a := (numOf (v 3)).toNat; let e := (numOf (v 5)).toNat
     if a + e ≥ MB then
       err (posOf (v 0)) (posOf (v 6)) s!"End address is greater than memory address space : {a} + {e} = {a + e} > {MB - 1}"
     else pushCode s!"print mem {a} : {e}" (posOf (v 0)); pure .unit
-  | "call", 0 =>
-    let n := strOf (v 2)
-    let s ← get
-    match s.fns.lookup n with
-    | none => err (posOf (v 0)) (posOf (v 3)) s!"'call' can be only used with procedures, {n} is not a procedure"
-    | some _ => pushCode s!"call {n}" (posOf (v 0)); pure .unit
-  | "int", 0 =>
-    let n := numOf (v 2)
-    if n == 3 || n == 0x10 || n == 0x21 then pushCode s!"int {n}" (posOf (v 0)); pure .unit
-    else err (posOf (v 0)) (posOf (v 3)) "'int' only supports 0x3,0x10 and 0x21"
-  | "jmps_loops", 0 =>
-    let q := strOf (v 1); let n := strOf (v 2); let start := posOf (v 0)
-    let s ← get
-    match s.label? n with
-    | some l =>
-      match l.type with
-      | .DATA => err start (posOf (v 3)) s!"Jumps are only supported with Code labels : {n} is data label"
-      | .CODE => pushCode s!"{q} {n}" start; pure .unit
-    | none =>
-      set { s with undefined := if s.undefined.contains (start, n) then s.undefined else s.undefined ++ [(start, n)] }
-      pushCode s!"{q} {n}" start; pure .unit
-  | "label", 0 =>
-    let t := (tokOf (kids.getD 1 default)).text
-    let name := String.ofList (t.toList.take (t.length - 1))
-    let s ← get
-    match s.label? name with
-    | some l => err l.srcPos (l.srcPos + t.utf8ByteSize) s!"Label {t} Already defined"
-    | none =>
-      set { s with labels := insertAssoc s.labels name { type := .CODE, srcPos := posOf (v 0), map := s.code.size } }
-      pure (.str name)
+  | "call", 0 => callAction (posOf (v 0)) (posOf (v 3)) (strOf (v 2))
+  | "int", 0 => intAction (posOf (v 0)) (posOf (v 3)) (numOf (v 2))
+  | "jmps_loops", 0 => jmpAction (posOf (v 0)) (posOf (v 3)) (strOf (v 1)) (strOf (v 2))
+  | "label", 0 => labelAction (posOf (v 0)) (tokOf (kids.getD 1 default)).text
   | "u_word_num", 3 => pure (v 0)
   | "u_word_num", _ =>
     let n := unsignedOf (tokOf (kids.getD 1 default))
@@ -550,15 +574,7 @@ def special (reparse : String → M Unit) (name : String) (alt : Nat) (kids : Li
   | "raw_addr", _ =>
     let n := unsignedOf (tokOf (kids.getD 1 default))
     if n ≤ 4294967295 then pure (.num (n % MB)) else err (posOf (v 0)) (posOf (v 2)) "Invalid Value, must be between 0-1048576"
-  | "offset", 0 =>
-    let n := strOf (v 2)
-    let s ← get
-    match s.label? n with
-    | some l =>
-      match l.type with
-      | .CODE => err (posOf (v 0)) (posOf (v 3)) s!"'offset' can be used only with data labels, {n} is not a data label"
-      | .DATA => pure (.num (l.map % 65536))
-    | none => err (posOf (v 0)) (posOf (v 3)) s!"Label {n} is not declared."
+  | "offset", 0 => offsetAction (posOf (v 0)) (posOf (v 3)) (strOf (v 2))
   | "memory_addr", 4 =>
     let pre := match optStr (v 0) with | some s => s!"{s}:" | none => ""
     let k := match v 5 with | .opt (some x) => x.render | _ => "0"
